@@ -14,7 +14,9 @@ import (
 	"github.com/tdewolff/canvas/renderers/rasterizer"
 
 	"verifharness/internal/cq"
+	"verifharness/internal/curve"
 	"verifharness/internal/gen"
+	"verifharness/internal/pd"
 	"verifharness/internal/out"
 	"verifharness/internal/rng"
 )
@@ -95,6 +97,59 @@ func oneCase(o *out.W, r *rng.R, i int) {
 	var before [][]float64
 	var paths []*canvas.Path
 	for l := 0; l < nl; l++ {
+		if r.P(1, 5) {
+			// a curved fill layer: a cubic that returns to its start (drop), an ellipse of two arcs, or a blob of two quadratics; the
+			// judge gets a dense sampling of the curve (the one-pixel margin dwarfs the sampling error)
+			sz := math.Min(W, H) * float64(r.Range(3, 6)) / 8
+			cx, cy := W/2+float64(r.Range(-8, 8))/4, H/2+float64(r.Range(-8, 8))/4
+			p := &canvas.Path{}
+			switch r.Intn(3) {
+			case 0:
+				p.MoveTo(0, -sz/2)
+				p.CubeTo(sz, sz, -sz, sz, 0, -sz/2)
+			case 1:
+				p.MoveTo(sz/2, 0)
+				p.ArcTo(sz/2, sz/3, 0, false, true, -sz/2, 0)
+				p.ArcTo(sz/2, sz/3, 0, false, true, sz/2, 0)
+				p.Close()
+			default:
+				p.MoveTo(-sz/2, 0)
+				p.QuadTo(0, sz, sz/2, 0)
+				p.QuadTo(0, -sz/2, -sz/2, 0)
+				p.Close()
+			}
+			if r.Bool() {
+				p = p.Reverse()
+			}
+			a := rng.Pick(r, [][4]float64{{1, 0, 0, 1}, {0, -1, 1, 0}, {1, 0, 0, -1}, {0.5, 0, 0, 1}})
+			m := canvas.Matrix{{a[0], a[1], cx}, {a[2], a[3], cy}}
+			segs, err := pd.Decode(p.Data())
+			if err == nil {
+				polysF, _ := curve.Sample(segs, 64)
+				var xs []string
+				for _, pl := range polysF {
+					var poly []ipt
+					for _, v := range pl {
+						poly = append(poly, toPx(m, v.X, v.Y))
+						if q := m.Dot(canvas.Point{X: v.X, Y: v.Y}); q.X < 3 || q.Y < 3 || q.X > W-3 || q.Y > H-3 {
+							offcanvas = true
+						}
+					}
+					xs = append(xs, term(poly))
+				}
+				col := colors[(l+int(uint(i)%3))%len(colors)]
+				rule := r.Intn(4)
+				style := canvas.DefaultStyle
+				style.Fill = canvas.Paint{Color: col}
+				style.FillRule = canvas.FillRule(rule)
+				layers = append(layers, fmt.Sprintf("(LFill %s %s %s)", cq.Z(int64(rule)), cq.List(xs), cq.Z(int64(l+1))))
+				descs = append(descs, layerDesc{"fill-curved", p.String(), rule, 0, m, col})
+				paths = append(paths, p)
+				before = append(before, append([]float64{}, p.Data()...))
+				c.RenderPath(p, style, m)
+				continue
+			}
+		}
 		ip := gen.Poly(r)
 		// matrix: place around the canvas centre, with a random linear part
 		lin := [][4]float64{{1, 0, 0, 1}, {0.5, 0, 0, 0.5}, {2, 0, 0, 1}, {0, -1, 1, 0}, {-1, 0, 0, 1}, {1, 0, 0, -1}, {1, 0.5, 0, 1}, {0.25, 0, 0, 0.25}}
